@@ -54,6 +54,7 @@ type Sim struct {
 	rewards map[string]*big.Int
 	recent  []*Built // recently delivered transactions (for replays)
 	profile string
+	script  func(s *Sim, h int64) []*TxSpec
 }
 
 var e18 = new(big.Int).Exp(big.NewInt(10), big.NewInt(18), nil)
@@ -76,6 +77,10 @@ func pickParams(rng *rand.Rand) Params {
 }
 
 func NewSim(seed int64, scratch string, profile string) (*Sim, error) {
+	return newSimWith(seed, scratch, profile, 0, 0, nil)
+}
+
+func newSimWith(seed int64, scratch string, profile string, nvals, nusers int, tweak func(*Genesis)) (*Sim, error) {
 	rng := rand.New(rand.NewSource(seed))
 	s := &Sim{rng: rng, sets: map[int64][]ValUp{}, nonces: map[string]uint64{}, bal: map[string]*big.Int{},
 		rewards: map[string]*big.Int{}, profile: profile}
@@ -84,7 +89,13 @@ func NewSim(seed int64, scratch string, profile string) (*Sim, error) {
 		nv = 3 + rng.Intn(3)
 	}
 	nu := 3 + rng.Intn(4)
+	if nvals > 0 {
+		nv, nu = nvals, nusers
+	}
 	g := Genesis{ChainID: fmt.Sprintf("verif-chain-%d", seed%7), Params: pickParams(rng)}
+	if g.Params.MaxValidatorCnt < int64(nv) { // the genesis validators satisfy the validator limits
+		g.Params.MaxValidatorCnt = int64(nv)
+	}
 	keys := map[string]Key{}
 	for i := 0; i < nv; i++ {
 		k := NewKey(fmt.Sprintf("s%d-val%d", seed, i))
@@ -100,6 +111,9 @@ func NewSim(seed int64, scratch string, profile string) (*Sim, error) {
 		s.users = append(s.users, k)
 		keys[k.Name] = k
 		g.Holders = append(g.Holders, Holder{Addr: k.Addr, Balance: rigo(int64(200 + rng.Intn(2000)))})
+	}
+	if tweak != nil {
+		tweak(&g)
 	}
 	stranger := NewKey(fmt.Sprintf("s%d-stranger", seed)) // has no account
 	keys[stranger.Name] = stranger
@@ -126,6 +140,12 @@ func NewSim(seed int64, scratch string, profile string) (*Sim, error) {
 		set = append(set, ValUp{Addr: v.Key.Addr, Power: v.Power})
 	}
 	s.sets[1], s.sets[2] = set, set
+	// at most one genesis stake (they all carry hash 0) is offered for unstaking by the random
+	// generator: two of them unbonding at once collide in the frozen ledger (known finding)
+	if len(g.Vals) > 0 {
+		v := g.Vals[rng.Intn(len(g.Vals))]
+		s.stakes = append(s.stakes, stakeInfo{Hash: make([]byte, 32), From: v.Key.Addr, To: v.Key.Addr, Power: v.Power})
+	}
 	for _, h := range g.Holders {
 		b, _ := new(big.Int).SetString(h.Balance, 10)
 		s.bal[string(h.Addr)] = b
@@ -202,6 +222,17 @@ func frac(b *big.Int, num, den int64) string {
 
 // genTx draws one transaction; mostly valid, with a separate stream of invalid ones
 func (s *Sim) genTx() *TxSpec {
+	t := s.genTx0()
+	// block 1: no staking (known finding "block-1 staking": the votes of blocks 2-4 carry genesis
+	// powers while the earliest readable ledger version already contains block 1's stakes)
+	// and no unstaking of a genesis stake (known finding "genesis validator leaves in block 1")
+	for s.height == 1 && (t.Type == 2 || (t.Type == 3 && isZero(t.UnstakeHash))) {
+		t = s.genTx0()
+	}
+	return t
+}
+
+func (s *Sim) genTx0() *TxSpec {
 	r := s.rng
 	zero := make([]byte, 20)
 	k := r.Intn(100)
@@ -239,7 +270,7 @@ func (s *Sim) genTx() *TxSpec {
 		return t
 	case k < 52: // unstaking
 		if len(s.stakes) == 0 {
-			return s.genTx()
+			return s.genTx0()
 		}
 		st := s.stakes[r.Intn(len(s.stakes))]
 		owner, _ := s.key(st.From)
@@ -355,7 +386,7 @@ func (s *Sim) genTx() *TxSpec {
 		return t
 	case k < 83: // voting
 		if len(s.props) == 0 {
-			return s.genTx()
+			return s.genTx0()
 		}
 		if r.Intn(4) > 0 { // forget proposals whose window has closed
 			var live []propInfo
@@ -365,7 +396,7 @@ func (s *Sim) genTx() *TxSpec {
 				}
 			}
 			if len(live) == 0 {
-				return s.genTx()
+				return s.genTx0()
 			}
 			s.props = live
 		}
@@ -518,6 +549,18 @@ func (s *Sim) Step() error {
 	if r.Intn(5) == 0 {
 		ntx = 0
 	}
+	var scripted []*TxSpec
+	if s.script != nil {
+		scripted = s.script(s, h)
+		ntx = len(scripted)
+		b.Evidence = nil
+		for i := range b.Votes {
+			b.Votes[i].Signed = true
+		}
+		if len(cur) > 0 {
+			b.Proposer = cur[0].Addr
+		}
+	}
 	// transactions are generated one by one against the shadow, which is updated from the node's answers
 	o := &BlockObs{}
 	o.Issued, o.BeginEvts, o.BeginPanic = s.node.Begin(b)
@@ -527,13 +570,18 @@ func (s *Sim) Step() error {
 	}
 	for i := 0; i < ntx; i++ {
 		var bt *Built
-		if len(s.recent) > 0 && r.Intn(14) == 0 {
+		if s.script == nil && len(s.recent) > 0 && r.Intn(14) == 0 {
 			old := s.recent[r.Intn(len(s.recent))]
 			cp := *old.Spec
 			cp.Note = "replay"
 			bt = &Built{Spec: &cp, Bytes: old.Bytes, Hash: old.Hash, SigOK: old.SigOK}
 		} else {
-			spec := s.genTx()
+			spec := (*TxSpec)(nil)
+			if s.script != nil {
+				spec = scripted[i]
+			} else {
+				spec = s.genTx()
+			}
 			var err error
 			bt, err = Build(spec, s.H.Keys, s.H.Genesis.ChainID)
 			if err != nil {
@@ -682,18 +730,80 @@ func Generate(seed int64, nBlocks int, scratch, profile string) (*History, error
 			break
 		}
 	}
-	for h := int64(1); h <= int64(len(s.H.Obs)); h++ {
-		if s.H.Obs[h-1].CommitPanic != "" || s.H.Obs[h-1].AppHash == nil {
-			break
-		}
-		sn, err := s.node.Snapshot(h, s.H.WatchA, s.H.WatchH)
-		if err != nil {
-			return s.H, err
-		}
-		s.H.Snaps = append(s.H.Snaps, sn)
+	if err := s.finish(); err != nil {
+		return s.H, err
 	}
 	s.H.Stats["blocks"] = len(s.H.Blocks)
 	return s.H, nil
 }
 
 func hx(b []byte) string { return hex.EncodeToString(b) }
+
+// Scripted runs a hand-written scenario: fixed genesis, per-block transaction lists
+func Scripted(name string, seed int64, scratch string, nvals, nusers int, tweak func(*Genesis), blocks int,
+	script func(s *Sim, h int64) []*TxSpec) (*History, error) {
+	s, err := newSimWith(seed, scratch, "script:"+name, nvals, nusers, tweak)
+	if err != nil {
+		return nil, err
+	}
+	defer s.node.Close()
+	s.script = script
+	for i := 0; i < blocks; i++ {
+		if err := s.Step(); err != nil {
+			s.H.Err = err.Error()
+			break
+		}
+	}
+	if err := s.finish(); err != nil {
+		return s.H, err
+	}
+	return s.H, nil
+}
+
+func (s *Sim) finish() error {
+	for h := int64(1); h <= int64(len(s.H.Obs)); h++ {
+		if s.H.Obs[h-1].CommitPanic != "" || s.H.Obs[h-1].AppHash == nil {
+			break
+		}
+		sn, err := s.node.Snapshot(h, s.H.WatchA, s.H.WatchH)
+		if err != nil {
+			return err
+		}
+		s.H.Snaps = append(s.H.Snaps, sn)
+	}
+	s.H.Stats["blocks"] = len(s.H.Blocks)
+	return nil
+}
+
+// helpers for scripts
+func (s *Sim) Val(i int) Key  { return s.vals[i] }
+func (s *Sim) User(i int) Key { return s.users[i] }
+func (s *Sim) TxTransfer(from Key, to []byte, amt string) *TxSpec {
+	t := s.baseTx(1, from, to)
+	t.Amount = amt
+	t.Note = "script-transfer"
+	return t
+}
+func (s *Sim) TxStake(from Key, to []byte, rigos int64) *TxSpec {
+	t := s.baseTx(2, from, to)
+	t.Amount = rigo(rigos)
+	t.Note = "script-stake"
+	return t
+}
+func (s *Sim) TxUnstake(from Key, to []byte, hash []byte) *TxSpec {
+	t := s.baseTx(3, from, to)
+	t.UnstakeHash = hash
+	t.Note = "script-unstake"
+	return t
+}
+
+// SeqNonce fixes up nonces of several scripted transactions of one sender inside one block
+func SeqNonce(txs []*TxSpec) []*TxSpec {
+	seen := map[string]uint64{}
+	for _, t := range txs {
+		k := string(t.From)
+		t.Nonce += seen[k]
+		seen[k]++
+	}
+	return txs
+}
